@@ -107,6 +107,11 @@ pub trait Subject: Serialize + DeserializeOwned + 'static {
     fn faithful() -> bool {
         true
     }
+    /// Byte lane, A8: what the derive(Deserialize)+deny_unknown_fields mirror of this type reads
+    /// from the same bytes (leaves, or the error). None where no mirror exists.
+    fn mirror_read(_bytes: &[u8], _plan: &crate::bytes::JPlan) -> Option<Result<Vec<u64>, String>> {
+        None
+    }
 }
 
 pub trait Scal: Copy + Serialize + DeserializeOwned + 'static {
@@ -322,6 +327,18 @@ macro_rules! decomposed {
             }
             fn faithful() -> bool {
                 <$S as Subject>::faithful() && <$R as Subject>::faithful() && <$V as Subject>::faithful()
+            }
+            fn mirror_read(bytes: &[u8], plan: &crate::bytes::JPlan) -> Option<Result<Vec<u64>, String>> {
+                let mut st = (0u32, false, 0u32, 0u32);
+                let r: Result<crate::bytes::MirrorDecomposed<$S, $R, $V>, String> =
+                    crate::bytes::read_json(bytes, plan, &mut st);
+                Some(r.map(|d| {
+                    let mut g = Vec::new();
+                    d.scale.read(&mut g);
+                    d.rot.read(&mut g);
+                    d.disp.read(&mut g);
+                    g
+                }))
             }
         }
         )+
